@@ -1,0 +1,9 @@
+//go:build !verif
+
+package sftp
+
+// Without the build tag "verif" the trace points of the /verif machinery compile to nothing.
+
+func verifPM(*packetManager, byte, uint32, requestPacket) {}
+func verifCC(*clientConn, byte, uint32, bool, error)      {}
+func verifAL(*allocator, byte, uint32, []byte)            {}
